@@ -419,6 +419,15 @@ func runC17(r *engine.Run) {
 			if env.KEKLabel != "" || !bytes.Equal(env.AESKey, key) {
 				c.Fail("keyenvelope/no-label-not-clear", fmt.Sprintf("envelope %+v for key %x", env, key), nil)
 			}
+			// a clear key is not an RFC 3394 blob: unwrapping it never passes the integrity check
+			for _, k := range [][]byte{kek, nil} {
+				var uerr error
+				if pn, site, v := engine.Try(func() { _, uerr = env.Unwrap(k) }); pn {
+					c.Fail("panic/"+site, fmt.Sprintf("Unwrap of a clear envelope panics: %v", v), nil)
+				} else if uerr == nil {
+					c.Fail("keyenvelope/unwrap-succeeds-iff-integrity-check/clear-envelope", fmt.Sprintf("Unwrap (KEK of %d bytes) succeeds on a clear envelope %+v, which holds no integrity check value", len(k), env), nil)
+				}
+			}
 			c.Outcome("keyenvelope/clear")
 			return
 		}
@@ -437,18 +446,19 @@ func runC17(r *engine.Run) {
 		if err := json.Unmarshal(j, &e2); err != nil || e2.KEKLabel != label || !bytes.Equal(e2.AESKey, want) {
 			c.Fail("keyenvelope/json", fmt.Sprintf("%s err %v", j, err), nil)
 		}
-		agree := func(what string, blob []byte, k []byte) {
+		agree1 := func(what string, envLabel string, blob []byte, k []byte) {
 			c.Eval()
-			e := backend.KeyEnvelope{KEKLabel: label, AESKey: backend.HEXBytes(blob)}
+			e := backend.KeyEnvelope{KEKLabel: envLabel, AESKey: backend.HEXBytes(blob)}
 			var got lorawan.AES128Key
 			var err error
 			if pn, site, v := engine.Try(func() { got, err = e.Unwrap(k) }); pn {
 				c.Fail("panic/"+site, fmt.Sprintf("Unwrap(%s) panics: %v", what, v), nil)
 				return
 			}
-			ref, refErr := spec.KeyUnwrap(k, blob)
-			if len(blob) != 24 {
-				refErr = fmt.Errorf("a wrapped 128-bit key is 24 bytes")
+			var ref []byte
+			refErr := fmt.Errorf("a wrapped 128-bit key is 24 bytes; a KEK is 16, 24 or 32 bytes")
+			if len(blob) == 24 && (len(k) == 16 || len(k) == 24 || len(k) == 32) {
+				ref, refErr = spec.KeyUnwrap(k, blob)
 			}
 			if (err == nil) != (refErr == nil) {
 				c.Fail("keyenvelope/unwrap-succeeds-iff-integrity-check/"+strings.Split(what, " ")[0], fmt.Sprintf("%s: Unwrap err=%v, RFC 3394 integrity check err=%v", what, err, refErr), nil)
@@ -459,6 +469,16 @@ func runC17(r *engine.Run) {
 				c.Outcome("keyenvelope/unwrap-rejected")
 			}
 		}
+		// the label names the KEK for the receiver; whether unwrapping succeeds is decided by the
+		// integrity check alone, so every blob is also tried in an envelope without a label
+		agree := func(what string, blob []byte, k []byte) {
+			agree1(what, label, blob, k)
+			agree1(what+" (envelope without label)", "", blob, k)
+		}
+		agree("own-kek", want, kek)
+		agree("no-kek(nil)", want, nil)
+		agree("no-kek(empty)", want, []byte{})
+		agree("clear-key-as-blob", key, kek)
 		for bit := 0; bit < 192; bit++ {
 			b := append([]byte(nil), want...)
 			b[bit/8] ^= 1 << uint(bit%8)
